@@ -164,6 +164,28 @@ impl<'a> Sess<'a> {
         v["op"] = json!("PChk");
         v["id"] = json!(id);
         v["len"] = json!(len);
+        // the kxp register as the image holds it (un-merged sketches with coupons): kxp * 2^64 as an integer
+        if !sk.verif_state().merge_flag && sk.num_coupons() > 0 && sk.lg_k() <= 12 {
+            let img = sk.serialize();
+            let st0 = sk.verif_state();
+            let k = 1u64 << st0.lg_k;
+            let c = st0.num_coupons as u64;
+            let has_window = 8 * c >= 4 * k && 2 * c >= k;
+            let sparse_or_hybrid = 2 * c < k;
+            let has_table = sparse_or_hybrid || (has_window && !st0.table.is_empty());
+            let both = has_table && has_window;
+            let off = 8 + 4 + if both { 4 } else { (if has_table { 4 } else { 0 }) + (if has_window { 4 } else { 0 }) };
+            if img.len() >= off + 8 {
+                let kxp = f64::from_le_bytes(img[off..off + 8].try_into().unwrap());
+                let y = kxp * 2f64.powi(64);
+                if y.is_finite() && y >= 0.0 && y.fract() == 0.0 && y < 1.2e24 {
+                    let u = y as u128;
+                    v["kxp"] = json!((0..5).map(|i| ((u >> (16 * i)) & 0xffff) as u64).collect::<Vec<_>>());
+                } else {
+                    v["kxp"] = json!([70000, 70000, 70000, 70000, 70000]);
+                }
+            }
+        }
         // C12: the writer's table selectors for this state (pairs in the encoded stream: all coupons for Hybrid)
         {
             let st = sk.verif_state();
